@@ -49,7 +49,7 @@ func nativeFiles(fam, bounds string, chunk int) (map[string]string, int) {
 		}
 		pkgNames = append(pkgNames, "s0")
 		n = cnt
-	} else if fam == "dispatch" {
+	} else if fam == "dispatch" || fam == "gopanic" {
 		subs := subjects(fam, bounds)
 		n = len(subs)
 		// every dispatch program declares its own types and init functions: one native package per program
@@ -125,6 +125,20 @@ func nativeFiles(fam, bounds string, chunk int) (map[string]string, int) {
 	fmt.Sscanf(os.Args[1], "%d/%d", &i, &n)
 	fmt.Sscanf(os.Args[2], "%d", &h)
 	rt.Horizon = h
+	if len(os.Args) > 3 && os.Args[3] == "single" {
+		// C19: run exactly one program in this process (it may be killed by a goroutine panic); os.Args[4] = index, [5] = valuation bits
+		var k int
+		fmt.Sscanf(os.Args[4], "%d", &k)
+		bits := []bool{}
+		if len(os.Args) > 5 {
+			for _, c := range os.Args[5] {
+				bits = append(bits, c == '1')
+			}
+		}
+		rt.RunSingle(all[k], bits)
+		fmt.Println("SURVIVED")
+		return
+	}
 	rt.WantLogs = len(os.Args) > 3 && os.Args[3] == "logs"
 	if len(os.Args) > 3 && os.Args[3] == "timeout" {
 		rt.TimeoutMs = 2000
